@@ -207,7 +207,7 @@ PROPS = {
         thorough=dict(shards=8, checks=250, extra=["TestSharedParams"], timeout=3400, parallel=8, gomaxprocs=16),
     ),
     "C08": dict(
-        pkg="c0809", env={"VERIF_PROP": "C08"},
+        pkg="c0809", env={"VERIF_PROP": "C08"}, fuzz=dict(target="FuzzDecode"),
         aux_build=[dict(out="decworker", pkg="./cmd/decworker")],
         technique="structured-mutation fuzzing (rapid) of valid streams of every codec through every decoding entry point, plus enumerated truncations and single-header-byte corruptions; thorough adds coverage-guided native Go fuzzing",
         level_text="Exploration: a pool of small valid streams (library and reference encoders, third-party HTJ2K fixtures) is mutated by drawn programs (truncation, byte/field/length/word edits, segment delete/duplicate/move/overwrite, splices, random tails, marker insertion) and decoded through all 23 entry points (package Decode functions, the JPEG 2000 decoder object and its accessors, the HT factory, the codestream parser, the 14 registered codecs, RLE with hostile FrameInfo) inside worker child processes; every truncation offset and every header byte with a hostile value set is enumerated.",
@@ -215,7 +215,7 @@ PROPS = {
         rule=("rapid-generated and enumerated (entry point, byte string[, FrameInfo]). Non-trivial: the input still starts with the family's start marker (it reaches real parsing) and differs from its valid parent. Distinct = hash of the case."),
         assumptions=COMMON_ASSUME,
         quick=dict(shards=16, checks=1500, extra=["TestValid", dict(run="TestTruncations", shards=8), dict(run="TestHeaderBytes", shards=8)], timeout=900, parallel=16),
-        thorough=dict(shards=16, checks=60000, extra=["TestValid", dict(run="TestTruncations", shards=8), dict(run="TestHeaderBytes", shards=16)], timeout=3400),
+        thorough=dict(shards=16, checks=60000, extra=["TestValid", dict(run="TestTruncations", shards=8), dict(run="TestHeaderBytes", shards=16)], timeout=3400, fuzztime=600),
     ),
     "C09": dict(
         pkg="c0809", env={"VERIF_PROP": "C09"},
